@@ -47,6 +47,10 @@ type ReaderPlan struct {
 	ZeroReads   bool   `json:"zero_reads"`    // sometimes return (0, nil)
 	EOFWithData bool   `json:"eof_with_data"` // deliver the last chunk together with io.EOF
 	FailAt      int    `json:"fail_at"`       // fail with an error after this many bytes; -1 = never
+	// ZeroRun: a reluctant producer — before the first byte, and once more in the
+	// middle, Read returns (0, nil) this many times in a row (legal for an
+	// io.Reader; callers are expected to simply read again).
+	ZeroRun int `json:"zero_run,omitempty"`
 }
 
 // Prior is one piece of earlier activity in the process.
@@ -83,6 +87,8 @@ type simReader struct {
 	fired bool
 	zeros int
 	calls int
+	run   int
+	run0done, run1done bool
 }
 
 func (s *simReader) Read(p []byte) (int, error) {
@@ -96,6 +102,22 @@ func (s *simReader) Read(p []byte) (int, error) {
 	}
 	if s.pos >= len(s.data) {
 		return 0, io.EOF
+	}
+	if s.plan.ZeroRun > 0 {
+		atStart := s.pos == 0 && !s.run0done
+		atMid := s.pos > 0 && s.pos >= len(s.data)/2 && !s.run1done
+		if atStart || atMid {
+			if s.run < s.plan.ZeroRun {
+				s.run++
+				return 0, nil
+			}
+			s.run = 0
+			if atStart {
+				s.run0done = true
+			} else {
+				s.run1done = true
+			}
+		}
 	}
 	if s.plan.ZeroReads && s.r.chance(1, 5) && s.zeros < 50 {
 		s.zeros++
@@ -776,6 +798,9 @@ func genReader(r *rng, textLen int, allowFail bool) *ReaderPlan {
 	p.MaxChunk = []int{1, 3, 7, 64, 512, 4096, 1 << 20}[r.intn(7)]
 	p.ZeroReads = r.chance(1, 3)
 	p.EOFWithData = r.chance(1, 2)
+	if r.chance(1, 5) {
+		p.ZeroRun = []int{2, 16, 99, 100, 101, 150, 1000}[r.intn(7)]
+	}
 	if allowFail && r.chance(1, 6) {
 		p.FailAt = r.intn(textLen + 1)
 	}
@@ -868,6 +893,7 @@ func c12Search() {
 		return
 	}
 	concurrent := *flagMode == "conc"
+	forceTasks = true
 	sum := newSummary()
 	distinct := hashSet{}
 	all := corpus()
@@ -1024,6 +1050,8 @@ func c12Replay(raw json.RawMessage) *outRec {
 	if err := json.Unmarshal(raw, &sc); err != nil || sc.Tape == nil || len(sc.Tasks) == 0 {
 		return &outRec{T: "note", Class: "harness-error", Detail: "bad C12 scenario"}
 	}
+	forceTasks = true
+	curScenario = &sc
 	o := c12Run(&sc)
 	if tmpDir != "" {
 		os.RemoveAll(tmpDir)
